@@ -164,4 +164,5 @@ let () =
                     print_endline "BADORACLE"
                 | Panic tag ->
                     dead := true;
+                    if Sys.getenv_opt "VERIF_PANIC_TAG" <> None then prerr_endline ("PANIC " ^ string_of_int (i tag) ^ " at: " ^ line);
                     print_endline "PANIC")))
